@@ -23,11 +23,13 @@ Notation plc_dict := IdentitySpec.plc_dict.
 (* ------------------------------------------------------------------ streams (BytesIO = unread rest) *)
 Definition stream := bytes.
 
-(* DataType._stream_read: data = stream.read(size); BufferEmptyError if no data; a SHORT read is returned *)
+(* DataType._stream_read (as of fix d2bc837 / bcb4254): data = stream.read(size);
+   BufferEmptyError if no data and size != 0; DataError if fewer bytes than requested; else the data *)
 Definition stream_read (size : nat) (s : stream) : res (bytes * stream) :=
-  match firstn size s with
-  | [] => Err BufferEmpty
-  | d => Ok (d, skipn size s)
+  let d := firstn size s in
+  match d with
+  | [] => if (size =? 0)%nat then Ok ([], s) else Err BufferEmpty
+  | _ => if (length d <? size)%nat then Err DataError else Ok (d, skipn size s)
   end.
 
 (* ------------------------------------------------------------------ elementary types from Gen/Types.v *)
@@ -96,8 +98,9 @@ Definition T_ULINT := zs_of_string "ULINT".
 Definition T_SHORT_STRING := zs_of_string "SHORT_STRING".
 Definition ENC_LATIN1 := zs_of_string "iso-8859-1".
 
-(* StringDataType.decode: str_len = len_type.decode(stream); "" if 0; data = _stream_read(stream, str_len)
-   (a SHORT read is decoded as it is); iso-8859-1 maps byte b to code point b *)
+(* StringDataType.decode: str_len = len_type.decode(stream); "" if 0; data = _stream_read(stream,
+   str_len * char_size) with char_size = 1 for the iso-8859-1 types (a short read is a DataError);
+   iso-8859-1 maps byte b to code point b *)
 Definition string_decode (name : list Z) (s : stream) : res (text * stream) :=
   match type_row name with
   | Some (_, _, len_type, enc) =>
@@ -108,7 +111,8 @@ Definition string_decode (name : list Z) (s : stream) : res (text * stream) :=
       else not_modelled
   | None => not_modelled
   end.
-(* StringDataType.encode: len_type.encode(len(value)) + value.encode("iso-8859-1") *)
+(* StringDataType.encode: data = value.encode("iso-8859-1"); len_type.encode(len(data) // 1) + data
+   (either failure becomes DataError in the wrapper) *)
 Definition latin1_encode (s : text) : res bytes :=
   if latin1_ok s then Ok s else Err (Foreign UnicodeError).
 Definition string_encode (name : list Z) (v : text) : res bytes :=
@@ -121,10 +125,10 @@ Definition string_encode (name : list Z) (v : text) : res bytes :=
   | None => not_modelled
   end.
 
-(* n_bytes(count).decode: data = _stream_read(stream, count) — a short read is returned as it is *)
+(* n_bytes(count).decode: data = _stream_read(stream, count) *)
 Definition bytes_decode (count : nat) (s : stream) : res (bytes * stream) :=
   wrap_decode (stream_read count s).
-(* n_bytes(count).encode(value) = value[:count] *)
+(* n_bytes(count).encode(value) = bytes(value[:count]) *)
 Definition bytes_encode (count : nat) (v : bytes) : res bytes := Ok (firstn count v).
 
 (* IPAddress.decode: ipaddress.IPv4Address(_stream_read(stream, 4)).exploded;
